@@ -35,7 +35,7 @@ std::vector<cmplx_t> _gen_coeffs_table(int n) noexcept {
     DSPLIB_ASSUME(n % 4 == 0);
     const int n4 = n / 4;
     const int n2 = n / 2;
-    const int n3 = 3 * n / 4;
+    const int n3 = n2 + n4;
     std::vector<cmplx_t> res(n);
     res[0] = {1, 0};
     res[n4] = {0, -1};
